@@ -68,6 +68,8 @@ class GetService(DPWSPortTypeBase):
                     for handle in requested_handles:
                         state_containers.extend(self._mdib.states.descriptor_handle.get(handle, []))
 
+                # a state is reported once, even if it is selected by several (or repeated) handles
+                state_containers = list({id(state): state for state in state_containers}.values())
                 self._logger.debug('_on_get_md_state requested Handles:{} found {} states', requested_handles,
                                    len(state_containers))
 
